@@ -84,7 +84,11 @@ def generate(seed, length=None):
                 "G3 X8 Y10 I1 J0", "G2 X8 Y10 I1 J0", "G2 X11 Y10 I1 J0", "G3 X11 Y10 I1 J0",
                 "G2 X10 Y10 I1 J0", "G3 I0 J2", "G2 X10 Y10 R5", "G2 X20 Y10 R1", "G3 X20 Y10 R-5",
                 "G2 X20 Y10 R5 I1 J1", "G3 X10.0 Y10.0 I0 J0", "G2 X10 Y12 I0 J1", "G2 R0 X5",
-                "G3 X9 Y10 I0.5 J0", "G2 I1e5 J0", "G2 X10 Y10 I-0.0 J0.0"]), {}))
+                "G3 X9 Y10 I0.5 J0", "G2 I1e5 J0", "G2 X10 Y10 I-0.0 J0.0",
+                # radius within a hair of half the chord (either side), as rounding leaves it
+                "G3 X20 Y10 R4.9998", "G2 X20 Y10 R-4.9996", "G2 X20 Y10 R5.0002",
+                "G2 X17.0711 Y17.0711 R5", "G3 X20 Y10 R4.99999999", "G2 X10 Y19 R-4.4999",
+                "G3 X20 Y10 R4.99951", "G2 X20.001 Y10 R5"]), {}))
         elif rng.random() < 0.08:
             # commands whose argument is free text (display / host messages), met inside the
             # region so that a configured deferred mode has to store and re-issue them
